@@ -272,6 +272,17 @@ def run_property(tier, seed_value):
         guarded("version", [], {"repo_path": GIT_REPO})
         guarded("flow", [], {"repo_path": GIT_REPO, "source": "git"})
         guarded("version", [], {"repo_path": "/nonexistent"})
+        # every VCS override at once on the git source: the repository is still consulted (tagged
+        # commit's hash and time, and it must exist at all)
+        FULL = {"tag_version": "2.0.0", "distance": 3, "dirty": True, "bumped_branch": "main", "bumped_commit_hash": "gabc1234", "bumped_timestamp": 1700000000}
+        for extra in ({"output_format": "zerv"}, {"output_template": "{{ last_commit_hash }}|{{ last_timestamp }}|{{ semver }}"}, {}):
+            guarded("version", [], dict(FULL, repo_path=GIT_REPO, **extra))
+            guarded("version", [], dict(FULL, repo_path=os.path.join(TMP, "plain"), **extra))
+        CLEAN = {"tag_version": "2.0.0", "clean": True, "bumped_branch": "main", "bumped_commit_hash": "gabc1234", "bumped_timestamp": 1700000000}
+        guarded("version", [], dict(CLEAN, repo_path=GIT_REPO, output_format="zerv"))
+        guarded("version", [], dict(CLEAN, repo_path=os.path.join(TMP, "plain")))
+        guarded("flow", [], dict(FULL, repo_path=GIT_REPO, output_format="zerv"))
+        label("all-vcs-overrides-at-once")
         # path spellings: the wrapper must hand the path to -C as it is (the OS resolves `..` through
         # symlinks physically; a lexical clean-up names a different directory)
         for path in PATH_SPELLINGS:
